@@ -11,6 +11,10 @@ import (
 
 	"github.com/filecoin-project/go-f3/certs"
 	"github.com/filecoin-project/go-f3/certstore"
+	"github.com/filecoin-project/go-f3/gpbft"
+	"github.com/libp2p/go-libp2p/core/host"
+	"github.com/libp2p/go-libp2p/core/peer"
+	"github.com/libp2p/go-libp2p/core/protocol"
 	sym "github.com/filecoin-project/go-f3/internal/verifsym"
 	"github.com/libp2p/go-libp2p/core/network"
 )
@@ -111,4 +115,136 @@ func VerifC16_ServerRange() {
 		sym.Assert(count >= want, "serves-what-is-available-within-limit")
 	}
 	_ = io.EOF
+}
+
+// ---- client side ----
+
+// VerifHost is a libp2p host whose only behaviour is NewStream: the k-th
+// stream opened serves the k-th scripted response (a Byzantine responder).
+type VerifHost struct {
+	host.Host
+	Responses [][]byte
+	Requests  []Request
+	opened    int
+	streams   []*verifStream
+}
+
+func (h *VerifHost) NewStream(ctx context.Context, p peer.ID, pids ...protocol.ID) (network.Stream, error) {
+	if h.opened >= len(h.Responses) {
+		return nil, io.ErrClosedPipe
+	}
+	st := &verifStream{in: bytes.NewReader(h.Responses[h.opened])}
+	h.opened++
+	h.streams = append(h.streams, st)
+	return st, nil
+}
+
+// Sent returns the requests written by the client so far (decoded).
+func (h *VerifHost) Sent() []Request {
+	var out []Request
+	for _, st := range h.streams {
+		var r Request
+		if err := r.UnmarshalCBOR(bytes.NewReader(st.out.Bytes())); err == nil {
+			out = append(out, r)
+		}
+	}
+	return out
+}
+
+// VerifResponse encodes a response: header plus certificates (real codecs),
+// optionally cut short by `cut` bytes.
+func VerifResponse(pending uint64, pt gpbft.PowerEntries, cut int, cs ...*certs.FinalityCertificate) []byte {
+	var b bytes.Buffer
+	if err := (&ResponseHeader{PendingInstance: pending, PowerTable: pt}).MarshalCBOR(&b); err != nil {
+		panic(err)
+	}
+	for _, c := range cs {
+		if err := c.MarshalCBOR(&b); err != nil {
+			panic(err)
+		}
+	}
+	out := b.Bytes()
+	if cut > 0 && cut < len(out) {
+		out = out[:len(out)-cut]
+	}
+	return out
+}
+
+// VerifC16_ClientSequence: the real Client.Request against a responder that
+// sends up to three certificates with arbitrary instance numbers, possibly
+// truncated: what the client delivers is exactly the longest in-sequence
+// prefix within the limit, equal to what was sent.
+func VerifC16_ClientSequence() {
+	ctx := context.Background()
+	// every integer on the wire is arbitrary within one CBOR width class per
+	// run (immediate or 8-byte), so that encoding does not fork per field
+	wide := sym.Bool("wide")
+	inClass := func(v uint64) bool {
+		if wide {
+			return sym.And(v >= 1<<32, v < 1<<63)
+		}
+		return v < 20
+	}
+	first := sym.Uint64("first")
+	sym.Assume(inClass(first))
+	limit := uint64(sym.Choice("limit", 5))
+	if limit == 4 {
+		limit = sym.Uint64("big-limit")
+		sym.Assume(limit >= 1<<32)
+	}
+	n := sym.Choice("sent", 4)
+	var sent []*certs.FinalityCertificate
+	for i := 0; i < n; i++ {
+		inst := first + uint64(i)
+		if sym.Bool("off-sequence") {
+			inst = sym.Uint64("instance")
+			sym.Assume(inClass(inst))
+		}
+		sent = append(sent, certstore.VerifCert(inst, i))
+	}
+	cut := 0
+	if n > 0 {
+		cut = sym.Choice("cut", 3) * 7 // 0, 7 or 14 bytes missing at the end of the last certificate
+	}
+	pending := sym.Uint64("pending")
+	sym.Assume(inClass(pending))
+	h := &VerifHost{Responses: [][]byte{VerifResponse(pending, nil, cut, sent...)}}
+	c := &Client{Host: h, NetworkName: "verif"}
+	hdr, ch, err := c.Request(ctx, "peer", &Request{FirstInstance: first, Limit: limit})
+	if err != nil {
+		sym.Cover("request-error")
+		sym.Assert(false, "header-of-a-wellformed-response-is-read")
+		return
+	}
+	sym.Cover("header-read")
+	sym.Assert(hdr.PendingInstance == pending, "pending-instance-as-sent")
+	reqs := h.Sent()
+	sym.Assert(len(reqs) == 1 && reqs[0].FirstInstance == first && reqs[0].Limit == limit && !reqs[0].IncludePowerTable, "request-on-the-wire-is-the-request")
+	var got []*certs.FinalityCertificate
+	for cert := range ch {
+		got = append(got, cert)
+	}
+	// reference: longest prefix of complete, in-sequence certificates within the limit
+	want := 0
+	for want < n && uint64(want) < limit {
+		if cut > 0 && want == n-1 {
+			break
+		}
+		if sent[want].GPBFTInstance != first+uint64(want) {
+			break
+		}
+		want++
+	}
+	if want > 0 {
+		sym.Cover("delivered")
+	}
+	if want < n {
+		sym.Cover("cut-short")
+	}
+	sym.Assert(uint64(len(got)) <= limit, "never-more-than-requested")
+	for i, g := range got {
+		sym.Assert(g.GPBFTInstance == first+uint64(i), "delivered-in-sequence-from-first")
+		sym.Assert(i < n && certstore.VerifCertEq(g, sent[i]), "delivered-equals-sent")
+	}
+	sym.Assert(len(got) == want, "delivers-exactly-the-in-sequence-prefix")
 }
